@@ -81,5 +81,5 @@ func (c *Custom[T]) setCoercer(coercer CoercerFunc) {
 }
 
 func (c *Custom[T]) getType() zconst.ZogType {
-	return "custom"
+	return zconst.TypeCustom
 }
